@@ -169,6 +169,19 @@ def body_forms(ch, ctx):
             ctx.check([x for x in src.log if x != "stop"] == list(range(n)), "generator-items-not-pulled-once-in-order",
                       sig, log=src.log)
 
+    # 1b. a second iterator of the same form over ANOTHER annotation is created before the first is consumed
+    if form in ("path", "gz", "string", "list", "generator") and tname == "none":
+        okind, on = ("gtf", 3) if kind == "gff3" else ("gff3", 3)
+        otexts = texts_of(okind, on)
+        dataA, kwA, _ = build_input(form, kind, texts, wd, cl, None, "A")
+        itA = gffutils.DataIterator(dataA, **kwA)
+        dataB, kwB, _ = build_input(form, okind, otexts, wd, cl, None, "B")
+        itB = gffutils.DataIterator(dataB, **kwB)
+        gotA = [str(f) for f in itA]
+        gotB = [str(f) for f in itB]
+        ctx.check(gotA == texts and gotB == otexts, "two-live-iterators-interfere", sig, checklines=cl,
+                  first=gotA[:2], expected_first=texts[:2], second=gotB[:2], expected_second=otexts[:2])
+
     # 2. create_db from this form vs. from a plain path
     log = []
     tf = make_transform(tname, log, [t.split("\t")[3] for t in texts])
